@@ -51,10 +51,10 @@ func delRefs(d, t *mocrelay.Event) refKind {
 					// NIP-09 limits an address reference to versions up to the
 					// request's created_at; the property does not say, so newer
 					// versions are left open.
-					if t.CreatedAt <= d.CreatedAt {
-						return refStrict
-					}
-					best = refMay
+					// (NIP-09 limits an address reference to versions up to the
+					// request's created_at; the statements of C05/C06 have no such
+					// condition, and neither have the stores)
+					return refStrict
 				}
 			case ref.Replaceable:
 				// kind:pubkey: (replaceable address form) is not exercised positively
